@@ -217,7 +217,7 @@ func newExec(reg *registry, roots []root, mark *marker, u *unit) *executor {
 	x.composed = map[string]bool{}
 	x.cutAll = u.CutAll
 	if x.cutAll == 0 {
-		x.cutAll = 10
+		x.cutAll = 8
 	}
 	x.fresh()
 	for _, s := range u.Skip {
@@ -449,7 +449,7 @@ func (x *executor) roundTrip(r *root, p reflect.Value, devs []string, choices []
 				continue
 			}
 		}
-		x.chunkedValue(r, ep, p, e, x.cutAll)
+		x.chunkedValue(r, ep, p, e, x.cutAll, allEntries)
 	}
 	return e1, true
 }
@@ -536,7 +536,10 @@ func (x *executor) hostile(r *root, ep string, fn decodeFn, class string, in []b
 	})
 	if sfn != nil && !c.panicked {
 		ref := streamRef{val: q, n: n0, err: err}
-		for _, spec := range hostileSpecs {
+		for i, spec := range hostileSpecs {
+			if len(in) > 1024 && i != 1 {
+				continue // large inputs: one chunking
+			}
 			x.chunked(r, ep, sfn, in, ref, spec, "hostile:"+class)
 		}
 	}
